@@ -541,7 +541,7 @@ struct Peer { demux: Demuxer, mux: Muxer, marker: AgentChannel, seq: u8, proto: 
 
 impl Peer {
     /// everything the agent emitted since the last call, as message classes
-    async fn emitted(&mut self) -> String {
+    async fn emitted(&mut self, track_cookie: bool) -> String {
         self.seq = self.seq.wrapping_add(1);
         if self.marker.enqueue_chunk(vec![self.seq]).await.is_err() { return "plexer-closed".into(); }
         let mut bytes = vec![];
@@ -553,7 +553,9 @@ impl Peer {
         }
         if bytes.is_empty() { return "none".into(); }
         let (classes, cookie) = classify(self.proto, &bytes);
-        if let Some(c) = cookie { self.cookie = c; }
+        // `same` refers to the cookie of the latest request made through send_keepalive_request (a raw
+        // send_message(KeepAlive) does not touch the client's state)
+        if let (true, Some(c)) = (track_cookie, cookie) { self.cookie = c; }
         classes.join("+")
     }
     async fn write(&mut self, class: &str, tok: &str) -> bool {
@@ -619,7 +621,7 @@ async fn run_async(case: &Case, out: &mut Out) {
                 let (m, res) = if op[0] == "send" { (op[1].clone(), with_timeout(a.raw_send(&op[1], k)).await) }
                                else { (op[2].clone(), with_timeout(a.call_send(&op[1], &op[2], k)).await) };
                 let Some(res) = res else { out.reply("bad-op".into()); continue };
-                let sent = peer.emitted().await;
+                let sent = peer.emitted(op[0] == "callsend").await;
                 let after = a.state();
                 // an `Ok(())` that sent nothing is a refusal without an error (keep-alive server outside `Server`)
                 let res = if res.is_ok() && sent == "none" { Err("NoOp".to_string()) } else { res };
@@ -682,7 +684,7 @@ async fn run_async(case: &Case, out: &mut Out) {
             }
             "comp" if op.len() == 5 => {
                 let Some(res) = with_timeout(a.call_comp(&op[1], &op[2], &op[3], k)).await else { out.reply("bad-op".into()); continue };
-                let sent = peer.emitted().await;
+                let sent = peer.emitted(true).await;
                 let after = a.state();
                 let m = op[2].clone();
                 // send half
